@@ -36,6 +36,7 @@ _allocate = _thread.allocate_lock
 
 NEW, RUNNABLE, BLOCKED, DONE = 'new', 'runnable', 'blocked', 'done'
 FULL_LOG = None  # set to a list by debugging tools to keep every event
+LOCK_SITES = bool(__import__('os').environ.get('VERIF_LOCKSITES'))
 EPOCH = 1_700_000_000.0
 
 
@@ -598,6 +599,15 @@ class SimLock:
     # outside a run live across runs and always yield, so that a run behaves
     # the same whether it is the first or the n-th of its process.
     self._used = Sim.current is None
+    if LOCK_SITES:
+      f = sys._getframe(1)  # pylint: disable=protected-access
+      site = []
+      while f is not None and len(site) < 3:
+        fn = f.f_code.co_filename
+        if not fn.endswith(('threading.py', 'sched.py')):
+          site.append(f'{fn.rsplit("/", 1)[-1]}:{f.f_lineno}')
+        f = f.f_back
+      self.site = '<'.join(site)
 
   def acquire(self, blocking=True, timeout=-1):
     s = Sim.current
@@ -630,7 +640,8 @@ class SimLock:
       self._waiters.append(me)
       remaining = None if deadline is None else max(deadline - s.now, 0.0)
       try:
-        r = s.block(remaining, 'lock', self)
+        r = s.block(remaining,
+                    'lock@' + self.site if LOCK_SITES else 'lock', self)
       finally:
         try:
           self._waiters.remove(me)
@@ -953,6 +964,12 @@ def install():
   cfb.Future.__init__ = _future_init
   cfb.Future.__hash__ = lambda self: getattr(self, '_sim_serial', 0)
   cfb.Future.__eq__ = lambda self, other: self is other
+
+  # futures.wait()/as_completed() lock the futures' conditions in id() order.
+  def _acquire_init(self, futures):
+    self.futures = sorted(futures, key=lambda f: getattr(f, '_sim_serial', 0))
+
+  cfb._AcquireFutures.__init__ = _acquire_init  # pylint: disable=protected-access
   # Module-level objects created before the patch that are held across
   # scheduling points must be simulated too.
   cft._global_shutdown_lock = SimLock()  # pylint: disable=protected-access
